@@ -34,8 +34,9 @@ def _class(step):
     c = step["cmd"]
     if c["op"] == "gen":
         return ("gen", c["l"], step["pre"]["dir"][c["l"]], step["pre"]["cards"][c["l"]])
-    tgt = "X" if c["op"] == "run3" else c["l"]
-    return (c["op"], step["pre"]["dir"][c["l"]], step["pre"]["cards"][c["l"]], step["pre"]["out"][tgt] != "none")
+    tgt = cli.target(c)
+    oc = step["pre"]["cards"][cli.other(c["l"])] if c["op"] == "run2x" else "-"
+    return (c["op"], step["pre"]["dir"][c["l"]], step["pre"]["cards"][c["l"]], oc, step["pre"]["out"][tgt] != "none")
 
 
 def _cover(seqs, rng):
